@@ -1,5 +1,5 @@
 # props/C07.py — fixed_vector behaves as a bounded sequence, including copy, move and assignment
-from props.vec_common import VecCheck, exhaustive, fault_cases, random_case, malformed_cases, small_alphabet_cases
+from props.vec_common import alias_cases, VecCheck, exhaustive, fault_cases, random_case, malformed_cases, small_alphabet_cases
 
 
 class C07(VecCheck):
@@ -15,7 +15,10 @@ class C07(VecCheck):
                   "push_back(first,last) appends what fits, insert(pos,first,last) OVERWRITES from pos (as the header is written), copy "
                   "construction/assignment give an equal container and operations touch only their own object, move construction/assignment "
                   "transfer the whole sequence (moved-from source: only validity), list assignment replaces contents and capacity, forward "
-                  "iteration = abs, reverse iteration = rev abs, at()/operator[] = nth. The model is tied to /repo by the differential run; the "
+                  "iteration = abs, reverse iteration = rev abs, at()/operator[] = nth; an argument that refers to an element of the same vector "
+                  "(emplace(pos, v[k]), emplace_back/insert/push_back(v[k])) or to a sub-range of it is read as it was BEFORE the operation — "
+                  "for insert(pos, begin()+a, begin()+b) only when pos is not strictly inside [a,b) (refutation witness proved for the rest: "
+                  "the header's element-by-element copy re-reads overwritten slots). The model is tied to /repo by the differential run; the "
                   "oracle is the extracted bounded-list interpreter `sstep`.")
     level_note = ("trusted: Coq kernel, ExtrOcamlBasic extraction, OCaml compiler, the differential harness; that a C++ copy does not share storage "
                   "with its source is exercised by the driver (snapshots of untouched objects after every step), in the functional model it holds by "
@@ -26,7 +29,9 @@ class C07(VecCheck):
             "depth 3 over the full alphabet and depth 4 (quick) / 5 (thorough) over a reduced alphabet, capacities 0..3, values {1,2,3}, every "
             "position 0..capacity, copy/move/assign between objects included, copyable and move-only element types; (ii) random sequences of "
             "length 30 over three objects (capacities 0..5, values 1..9); (iii) a sample of fault cases continued after the throw; (iv) malformed "
-            "stream; (v) corpus of the pre-repair witnesses. A case is non-trivial when some object holds at least one element at some step; "
+            "stream; (v) corpus of the pre-repair witnesses; (vi) aliasing arguments: emplace(begin()+pos, v[k]) for every k relative to pos, "
+            "emplace_back/insert/push_back(v[k]), insert/push_back of every short sub-range of the SAME vector at every position, v = v, v = std::move(v), "
+            "from every fill level with pairwise distinct values, alone, before/after an ordinary operation and in pairs. A case is non-trivial when some object holds at least one element at some step; "
             "distinct = distinct case line.")
     modelled_note = ("modelled, not verified: element assignment = value transfer; std::unique_ptr<T[]>; std::reverse_iterator; independence of "
                      "copies (no shared storage) holds by construction in the model and is exercised on the C++ by the driver's snapshots")
@@ -35,6 +40,11 @@ class C07(VecCheck):
         caps = range(4)
         for c in malformed_cases():
             yield c, "malformed"
+        for c in alias_cases("C", range(5), (0, 1, 2, 3) if tier == "quick" else range(5)):
+            yield c, "alias-C"
+        if tier == "thorough":
+            for c in alias_cases("T", range(4), (), faults=True):
+                yield c, "alias-faults-T"
         for c in exhaustive("C", caps, 3, True):
             yield c, "exh3-C"
         for c in small_alphabet_cases("C", caps, 4 if tier == "quick" else 5):
